@@ -9,7 +9,7 @@
    unreachable. *)
 From Coq Require Import List NArith ZArith QArith Qcanon Bool Lia.
 From ACB Require Import Base.Outcome Base.QcExtra Base.Fit Base.Arith Model.Tx Model.Ledger Model.Sfl
-     Model.DeltaList Spec.AvgCost Proofs.Tactics Proofs.C01Refine Proofs.C04Inv Proofs.C04Sum Proofs.C02Scan Proofs.C05Sites.
+     Model.DeltaList Spec.AvgCost Proofs.Tactics Proofs.C01Refine Proofs.C04Inv Proofs.C04Sum Proofs.C02Scan Proofs.C05Sites Proofs.AllAfter.
 Import ListNotations.
 Local Open Scope Qc_scope.
 
@@ -215,6 +215,7 @@ Section Inv.
     unfold sell_core in Hc. cbn [a_sub exact bind] in Hc.
     rewrite next_pre_all, next_pre_sh in Hc.
     destruct (Qcltb_spec (last_sh st (t_af t) - n) 0) as [|Hsh]; [discriminate|].
+    rewrite (all_after_exact_as _ _ _ (ps_all st - n)) in Hc by ring. cbn [bind] in Hc.
     destruct (Qcltb_spec (ps_all st - n) 0) as [|Hal]; [discriminate|].
     rewrite Hlatest in H.
     destruct (Qcltb_spec (ps_all st - n) 0) as [|_]; [contradiction|].
@@ -278,7 +279,8 @@ Section Inv.
       destruct (delta_nonsell exact t _) as [d0|r0|p0] eqn:Ed; cbn [bind] in H; try discriminate H.
       inversion H; subst r0; clear H. rename Ed into H.
       unfold delta_nonsell in H. rewrite Ea in H.
-      bnr H. bnr H. destruct (s_acb _); cbn [bind] in H; [|discriminate H].
+      bnr H. rewrite all_after_exact in H. cbn [bind] in H.
+      bnr H. destruct (s_acb _); cbn [bind] in H; [|discriminate H].
       bnr H. bnr H. bnr H. bnr H. discriminate H.
     - (* Sell *)
       destruct (sell_core exact _ n price com rate crate) as [c| r0 |] eqn:Ec; cbn [bind] in H; try discriminate H.
@@ -291,6 +293,7 @@ Section Inv.
       + inversion H; subst. unfold sell_core in Ec. cbn [a_sub exact bind] in Ec.
         rewrite next_pre_all, next_pre_sh in Ec.
         destruct (Qcltb_spec (last_sh st (t_af t) - n) 0) as [|Hsh]; [inversion Ec; exact I|].
+        rewrite (all_after_exact_as _ _ _ (ps_all st - n)) in Ec by ring. cbn [bind] in Ec.
         destruct (Qcltb_spec (ps_all st - n) 0) as [Hlt|_].
         { exfalso. apply Qcnot_lt_le in Hsh. qc_lra. }
         bnr Ec. destruct a as [aps_|]; [|discriminate Ec].
@@ -318,7 +321,7 @@ Section Inv.
       cbn [a_mul a_div exact] in H. destruct (Qceqb pre_ 0); cbn [bind] in H; [discriminate H|].
       unfold gez_unwrap in H. rewrite next_pre_sh, next_pre_all in H.
       destruct (Qcleb_spec 0 (last_sh st (t_af t) * post / pre_)) as [Hq|]; cbn [bind] in H; [|discriminate H].
-      cbn [a_sub a_add exact bind] in H.
+      rewrite all_after_exact in H. cbn [bind] in H.
       destruct (Qcltb_spec (ps_all st + (last_sh st (t_af t) * post / pre_ - last_sh st (t_af t))) 0) as [Hlt|_].
       { exfalso. qc_lra. }
       destruct (_ && _); inversion H; exact I.
@@ -451,7 +454,7 @@ Section Runs.
     intros H (Hok & Hsum & Hreg & Hl) Hv Haf.
     pose proof (set_latest_ok exact _ _ _ _ H Hok Hv) as Hok'.
     pose proof (set_latest_sum _ _ _ _ H Hsum) as (Hm & _ & Hsum').
-    unfold set_latest in H. cbn [a_add a_sub exact bind] in H.
+    unfold set_latest in H. rewrite all_after_exact in H. cbn [bind] in H.
     destruct (Bool.eqb (af_reg af) (is_none (s_acb v))) eqn:Eb; cbn [negb] in H; [|discriminate].
     destruct (negb _); [discriminate|]. inversion H; subst st'; clear H.
     split; [exact Hok'|]. split; [exact Hsum'|]. split.
@@ -483,7 +486,7 @@ Section Runs.
           assert (Hinv1 : st_inv regof st1) by (eapply set_latest_inv; eauto).
           destruct (IH _ _ _ _ _ _ Er Hinv1 HF) as (I1 & I2 & I3).
           split; [assumption|]. split; [assumption|]. cbn [length firstn rev]. rewrite I3, <- app_assoc. reflexivity.
-        * exfalso. unfold set_latest in Es. cbn [a_add a_sub exact bind] in Es.
+        * exfalso. unfold set_latest in Es. rewrite all_after_exact in Es. cbn [bind] in Es.
           destruct (negb _); [discriminate|]. destruct (negb _); discriminate.
         * inversion H; subst. split; [assumption|]. split; [intros r Hr; discriminate | reflexivity].
       + inversion H; subst. split; [assumption|]. split; [|reflexivity].
@@ -512,7 +515,7 @@ Section Runs.
              ++ apply Forall_rev. apply Forall_forall. intros x Hx.
                 rewrite Forall_forall in Hinj. apply Hinj. eapply In_firstn. exact Hx.
              ++ constructor; assumption.
-        * exfalso. unfold set_latest in Es. cbn [a_add a_sub exact bind] in Es.
+        * exfalso. unfold set_latest in Es. rewrite all_after_exact in Es. cbn [bind] in Es.
           destruct (negb _); [discriminate|]. destruct (negb _); discriminate.
         * discriminate.
       + inversion H; subst. eapply delta_for_tx_rej_listed; eauto.
@@ -540,7 +543,7 @@ Section Runs.
           split; [reflexivity|]. split; [intros k s Hk; discriminate | reflexivity]. }
       eapply (run_loop_rej [] st (t :: txs) ds r H Hinv HF). constructor.
     - exfalso. unfold init_state in Ei. destruct init as [i|]; [|discriminate].
-      destruct (negb _); [discriminate|]. unfold set_latest in Ei. cbn [a_add a_sub exact bind] in Ei.
+      destruct (negb _); [discriminate|]. unfold set_latest in Ei. rewrite all_after_exact in Ei. cbn [bind] in Ei.
       destruct (negb _); [discriminate|]. destruct (negb _); discriminate.
     - discriminate.
   Qed.
